@@ -832,6 +832,12 @@ class IsoHybrid:
             self.efi_count = 0  # this will be set later
             self.primary_gpt.new(self.mac)
             self.secondary_gpt.new(self.mac)
+            # The backup GPT describes the same disk and the same partitions,
+            # so it has to carry the same GUIDs as the primary one.
+            self.secondary_gpt.header.disk_guid = self.primary_gpt.header.disk_guid
+            for primary_part, secondary_part in zip(self.primary_gpt.parts,
+                                                    self.secondary_gpt.parts):
+                secondary_part.part_guid = primary_part.part_guid
 
         self._initialized = True
 
